@@ -4,10 +4,20 @@ every registered handler those contracts may use plus the verify tasks of the ca
 
 Pairs that are NOT listed stay assumptions (A10) and are named in ASSUMED below: their handlers state more than the callee's engine-V contract
 proves (e.g. `mult` as a contiguous block of equal elements: the callee contract only names the count by a ghost function), or the conformance
-query is beyond the solver budget at this abstraction (the facade's `internal ± nodes`, `|`, `&`, insert / remove / scale)."""
+query is beyond the solver budget at this abstraction."""
 from __future__ import annotations
 
-from . import facade, kv, kvquery, misc
+from . import facade, facade2, gens, kv, kvquery, misc
+
+
+def _ikv_invariant(o):
+    """Every ImmutableKnotVector object satisfies WF: `__new__` accepts exactly the well-formed vectors (kvnew.NEW_*, proved) and nothing writes the payload afterwards."""
+    U = o.fields["_seq"]
+    return kv.wf_z3(U.arr, U.n, o.fields["_ImmutableKnotVector__degree"].z, o.fields["_ImmutableKnotVector__npts"].z)
+
+
+from ..pyvc import conform as _conform
+_conform.CLASS_INVARIANTS["ImmutableKnotVector"] = _ikv_invariant
 
 
 def _h(table, key):
@@ -27,6 +37,19 @@ PAIRS = [
     ("Math.factorial(n)", _h(misc.COMB.calls, "static:Math.factorial"), [(misc.FACTORIAL, "heavy", "Math.factorial", None)], None, None, ()),
     ("knotvector.shift(value)", _h(facade.METHOD_CALLS, "method:KnotVector.shift"), [(facade.SHIFT, "knotspace", "KnotVector.shift", None)], None, None, ()),
     ("self.internal = instance", _h(facade.FACADE_CALLS, "setattr:KnotVector.internal"), [(facade.SET_INTERNAL_INSTANCE, "knotspace", "KnotVector.internal", "internal.setter")], None, None, ()),
+    # the facade's view of the payload operators, and the facade's own methods as seen by their callers (arbitrary payload objects satisfy the class invariant WF)
+    ("internal + nodes", _h(facade.FACADE_CALLS, "binop:Add:ImmutableKnotVector"), [(kv.ADD, "heavy", "ImmutableKnotVector.__add__", None)], None, None, ()),
+    ("internal - nodes", _h(facade.FACADE_CALLS, "binop:Sub:ImmutableKnotVector"), [(kv.SUB, "heavy", "ImmutableKnotVector.__sub__", None)], None, None, ()),
+    ("knotvector.scale(value)", _h(facade.METHOD_CALLS, "method:KnotVector.scale"), [(facade.SCALE, "knotspace", "KnotVector.scale", None)], None, None, ()),
+    ("knotvector.insert(nodes)", _h(facade.METHOD_CALLS, "method:KnotVector.insert"), [(facade.INSERT, "knotspace", "KnotVector.insert", None)], None, None, ()),
+    ("knotvector.remove(nodes)", _h(facade.METHOD_CALLS, "method:KnotVector.remove"), [(facade.REMOVE, "knotspace", "KnotVector.remove", None)], None, None, ()),
+    ("knotvector.normalize()", _h(gens.COMPOSED_CALLS, "method:KnotVector.normalize"), [(facade.NORMALIZE, "knotspace", "KnotVector.normalize", None)], None, None, ()),
+    ("GeneratorKnotVector.integer(p, n, cls)", _h(gens.COMPOSED_CALLS, "static:GeneratorKnotVector.integer"), [(gens.INTEGER, "knotspace", "GeneratorKnotVector.integer", None)], None, None, ()),
+    ("GeneratorKnotVector.weight(p, w)", _h(gens.COMPOSED_CALLS, "static:GeneratorKnotVector.weight"), [(gens.WEIGHT, "knotspace", "GeneratorKnotVector.weight", None)], None, None, ()),
+    ("copy.__iadd__(nodes)", _h(facade2.OP_CALLS, "method:KnotVector.__iadd__"), [(facade.IADD_NODES, "knotspace", "KnotVector.__iadd__", None)], None, None, ()),
+    ("copy.__isub__(nodes)", _h(facade2.OP_CALLS, "method:KnotVector.__isub__"), [(facade.ISUB_NODES, "knotspace", "KnotVector.__isub__", None)], None, None, ()),
+    ("copy.__ior__(other)", _h(facade2.OP_CALLS, "method:KnotVector.__ior__"), [(facade.IOR, "knotspace", "KnotVector.__ior__", None)], None, None, ()),
+    ("copy.__iand__(other)", _h(facade2.OP_CALLS, "method:KnotVector.__iand__"), [(facade.IAND, "knotspace", "KnotVector.__iand__", None)], None, None, ()),
 ]
 for _p in PAIRS:
     try:
@@ -36,11 +59,11 @@ for _p in PAIRS:
 ASSUMED = [
     "ImmutableKnotVector.mult as a contiguous block (misc.h_mult, kvor.h_mult): the callee contract names the count by a ghost function only (A10)",
     "ImmutableKnotVector.__get_unique (kvnew / kvor): increasing distinct values under A3 (A10)",
-    "internal + nodes, internal - nodes, internal | other, internal & other as seen by the KnotVector facade (facade.h_add_ikv / h_sub_ikv / h_or_ikv): the "
-    "callee contracts kv.ADD / kv.SUB / kvor are proved, the conformance query (class invariant of the result + quantified multiset facts) is not decided within budget",
-    "KnotVector.insert / remove / scale / normalize and the in-place operators as seen by facade2 and gens: callee contracts proved (facade.py), conformance not run "
-    "(their exceptional-exit clauses are stated with another spelling of `unchanged`)",
-    "Calculus.difference_vector as seen by difference_matrix, GeneratorKnotVector.integer / weight as seen by uniform / random: callee contracts proved, conformance not run",
+    "internal | other, internal & other as seen by the KnotVector facade (facade.h_or_ikv): callee contracts proved in kvor.py at another abstraction (ghost multiplicity functions); conformance not run",
+    "internal = sequence (the constructor as seen by the internal setter), copy.__imul__ / __itruediv__ as seen by the non-in-place operators: callee contracts proved, the conformance query "
+    "was not decided within 150 s (nonlinear scaling facts under quantifiers)",
+    "Calculus.difference_vector as seen by difference_matrix: the handler assumes degree >= 1 where the callee contract has no such precondition - refused by the conformance check, kept as an assumption "
+    "(difference_matrix is only reached with degree >= 1 in Derivate; engine S checks the values per shape in C09)",
 ]
 
 
